@@ -290,6 +290,8 @@ fn handle(req: &Request) -> String {
 
   let vm_ptr: *mut Vm = Box::into_raw(Box::new(Vm::new(io)));
   let mut heap_snapshots: Vec<(String, verif::HeapStats)> = vec![];
+  // gc counters at the end of the program, before the collections mode 4 forces afterwards
+  let mut run_end: Option<(u64, u64, u64)> = None;
   let mut dump: Option<verif::CompileDump> = None;
   let mut verify_report: Option<verifier::Report> = None;
 
@@ -314,6 +316,8 @@ fn handle(req: &Request) -> String {
       4 => {
         let r = vm.run(PathBuf::from(&req.main), &source);
         verif::set_gc_disabled(true);
+        let c = verif::gc_counters();
+        run_end = Some((c.allocations, c.freeing_collections, c.last_freeing_ordinal));
         heap_snapshots.push(("after_run".to_string(), vm.verif_stats()));
         vm.verif_collect();
         heap_snapshots.push(("after_natural_collect".to_string(), vm.verif_stats()));
@@ -387,6 +391,14 @@ fn handle(req: &Request) -> String {
   }
   j.end_arr();
   j.end_obj();
+
+  if let Some((a, f, l)) = run_end {
+    j.kv_obj_begin("gc_run_end");
+    j.kv_num("allocations", a);
+    j.kv_num("freeing_collections", f);
+    j.kv_num("last_freeing_ordinal", l);
+    j.end_obj();
+  }
 
   j.kv_obj_begin("alloc");
   let mismatches = alloc::MISMATCHES.with(|c| c.get());
